@@ -112,10 +112,33 @@ def call(fn, *args, patches=(), stdin=None):
                 return None, e, out.getvalue()
 
 
+_SESSION = {"dir": None, "pid": None}
+
+
+def _base():
+    return "/dev/shm" if os.path.isdir("/dev/shm") and os.access("/dev/shm", os.W_OK) \
+        else "/var/tmp"
+
+
+def init_session(tag):
+    """Called once in the parent (Check.prepare): every TempDir of this run lives below one
+    directory that the parent removes at exit, also when workers are terminated mid-case."""
+    import atexit
+    if _SESSION["dir"] is not None and _SESSION["pid"] == os.getpid():
+        return _SESSION["dir"]
+    d = tempfile.mkdtemp(prefix="vf-%s-session-" % tag, dir=_base())
+    _SESSION["dir"], _SESSION["pid"] = d, os.getpid()
+
+    def cleanup(path=d, pid=os.getpid()):
+        if os.getpid() == pid:
+            shutil.rmtree(path, ignore_errors=True)
+    atexit.register(cleanup)
+    return d
+
+
 class TempDir:
     def __init__(self, tag):
-        base = "/dev/shm" if os.path.isdir("/dev/shm") and os.access("/dev/shm", os.W_OK) \
-            else "/var/tmp"
+        base = _SESSION["dir"] if _SESSION["dir"] and os.path.isdir(_SESSION["dir"]) else _base()
         self.path = tempfile.mkdtemp(prefix="vf-%s-" % tag, dir=base)
 
     def file(self, name):
